@@ -250,6 +250,19 @@ theorem packet_in_form (s : St) (h : Inv s) (fr : Bytes) (port : Nat) (dl : Opti
             exact (List.take_of_length_le (by omega)).symm
 
 
+/-- **unbuffered_iff_full**: the packet-in goes out without a buffer id exactly when the advertised number of packets
+is already stored (so "no buffer id" is never chosen while a buffer is free, and never avoided when none is) -/
+theorem unbuffered_iff_full (s : St) (h : Inv s) (fr : Bytes) (port : Nat) (dl : Option Nat) :
+    (∃ data total p, (step s (.arrive fr port dl)).2 = .packetIn none data total p) ↔ stored s.pool = s.pool.max := by
+  rw [← alloc_none_iff s.pool (fr, port) h.1]
+  simp only [step]
+  unfold arriveStep
+  cases ha : alloc s.pool (fr, port) with
+  | mk p' bid =>
+    cases bid with
+    | none => simp
+    | some i => simp
+
 /-- **use_to_controller**: releasing an outstanding buffer through an action list that sends the packet to the
 controller again announces that very frame (its true length, its stored ingress port) in a packet-in whose buffer id —
 if it has one — is a DIFFERENT id that now identifies the frame; the old id is no longer outstanding.  Naming an id
